@@ -80,7 +80,7 @@ func c07(c *q.Ctx) {
 			}
 		}
 		c.Effect(fn, q.Eff{Spec: "txDigestHashV2", Arg: 0, Glob: "p0", Req: []q.Cond{{Canon: "(p0.Version < 3)", Sense: false}}, Why: "version 3 uses the length-prefixed encoding", Rule: "K4"})
-		c.Effect(fn, q.Eff{Spec: "hash::DoubleSha256", Arg: 0, Glob: "txhash.encodeTxData(p0,"+want+")#0", Why: "version 1/2 hash the JSON stream", Rule: "K4"})
+		c.Effect(fn, q.Eff{Spec: "hash::DoubleSha256", Arg: 0, Glob: "txhash.encodeTxData(p0," + want + ")#0", Why: "version 1/2 hash the JSON stream", Rule: "K4"})
 	}
 
 	// ---- ImmediateVerifyTx pipeline
